@@ -163,10 +163,21 @@ Lemma ltrim_fixed_ok :
   lquery k_ts LQlen l = RInt 0 /\ lquery k_ts (LQrange 0 (-1)) l = RArr [].
 Proof. vm_compute. split; reflexivity. Qed.
 
-(* under wait_compact EQUAL timestamps break the agreement (open finding of C10: generation = ts collision) *)
+(* under wait_compact EQUAL timestamps break the agreement (open finding of C10: generation = ts collision).
+   Since fix 1dcd66e a clear at the timestamp of the creation removes the elements physically, so clear +
+   re-create at one timestamp is harmless; the collision is still reachable through expiry: a hash that
+   expires in the second of its creation and is written again at the same timestamp is renewed with the
+   generation it already had *)
 Definition equal_ts_hash : list (Z * cmd) :=
-  [ (5, CHset true k_ts b_a b_1); (5, CHclear k_ts); (5, CHset true k_ts b_b b_1) ].
+  [ (5000000000, CHset false k_ts b_a b_1); (5000000000, CExpire TH k_ts 0); (5000000000, CHset false k_ts b_b b_1) ].
 Lemma equal_ts_breaks_agree :
   let c := x_r (alook (x0 empty_coll) k_ts (m_hash (map_run true 0 equal_ts_hash m_init))) in
   hlen k_ts c = RInt 1 /\ hkeys k_ts c = rbulks [b_a; b_b].
+Proof. vm_compute. split; reflexivity. Qed.
+(* the clear variant on the repaired definitions: HSETNX k a 1; HCLEAR k; HSETNX k b 1 at one timestamp *)
+Definition equal_ts_clear : list (Z * cmd) :=
+  [ (5, CHset true k_ts b_a b_1); (5, CHclear k_ts); (5, CHset true k_ts b_b b_1) ].
+Lemma equal_ts_clear_ok :
+  let c := x_r (alook (x0 empty_coll) k_ts (m_hash (map_run true 0 equal_ts_clear m_init))) in
+  hlen k_ts c = RInt 1 /\ hkeys k_ts c = rbulks [b_b].
 Proof. vm_compute. split; reflexivity. Qed.
